@@ -553,6 +553,7 @@ def run_retry_env(inp):
             return {}
 
     _, T, ri, tau, spur = inp[:5]
+    cost = inp[5] if len(inp) > 5 else 0
     T, ri = iosim.sx_tmo(T), iosim.sx_tmo(ri)
     clock = iosim.Clock()
     start = clock.now
@@ -575,6 +576,9 @@ def run_retry_env(inp):
 
         def select(self, timeout=None):
             n = now()
+            if tau <= n:                                              # already ready: returns at once
+                waits.append([0, [] if timeout is None else [iosim.ticks(timeout)]])
+                return [(None, self.events)]
             ev = min([tau] + [x for x in spur if n < x < tau])       # first readiness instant after now
             if timeout is None:
                 waits.append([0, []])
@@ -594,7 +598,9 @@ def run_retry_env(inp):
         calls[0] += 1
         if calls[0] > bound:
             raise iosim.SpinDetected()
-        if tau <= now():
+        ready = tau <= now()
+        clock.advance(cost)
+        if ready:
             return "ok"
         raise WouldBlockOnRead(0)
 
@@ -880,10 +886,15 @@ def oracle(inp):
         return None
     if op == 6:
         _, T, ri, tau, spur = inp[:5]
+        cost = inp[5] if len(inp) > 5 else 0
         T = iosim.sx_tmo(T)
         code, ret, waits, dt = out
         if code in (8, 9):
             return "_retry does not terminate"
+        if cost:
+            if T is not None and T >= 0 and code == 1 and tau <= T:
+                return f"_retry (env, costs): TimeoutError although the fd is ready at {tau} <= T={T}"
+            return None
         if T is not None and T >= 0:
             if code == 1 and tau <= T:
                 return f"_retry (env): TimeoutError although the fd is ready at {tau} <= T={T}"
@@ -1064,6 +1075,14 @@ def cases(tier, rng, escalate):
                                tags=_tags(6, T, ["env", f"ri={'inf' if ri is None else ri}", "spurious" if spur else "no-spurious",
                                                  "arrives-in-time" if (T is None or tau <= T) else "too-late"]),
                                nontrivial=tau > 0)
+    # ---- op 6 with call costs
+    for tau in ([-1, 0, 1, 3, 5, 8, 9, 10, 11, 14] if thorough else [0, 3, 8, 9, 10, 11]):
+        for T in [0, 1, 3, 8, None]:
+            for ri in RIS + [3]:
+                for cost in (1, 2):
+                    for spur in ([], [2, 4, 7]):
+                        yield dict(input=[6, iosim.tmo_sx(T), iosim.tmo_sx(ri), tau, spur, cost],
+                                   tags=_tags(6, T, ["env", "call-costs", f"ri={'inf' if ri is None else ri}"]), nontrivial=tau > 0)
     # ---- op 7: asynchronous iterator
     for T in TS + [2, 5, 13]:
         for k in range(1, 4):
